@@ -170,6 +170,17 @@ def body_solver(case, ctx):
         v, desc = kkt_violation(a, b, s, natural=natural)
         worst = max(worst, v if np.isfinite(v) else 1.0)
         ctx.check(v <= KKT_RTOL, "fnnls/%s/kkt" % sub, lambda: "%s; n=%d cond=%.1e s=%s unconstrained=%s" % (desc, len(b), cond, s, unc))
+    # the same kind of system handed over as whole numbers in an integer dtype (B^T B + I is SPD for any integer B)
+    bi = np.rint(b / np.abs(b).max() * 9.0).astype(np.int64)
+    if np.abs(bi).max() >= 1:
+        Bm = np.rint(a / np.abs(a).max() * 4.0).astype(np.int64)
+        ai = Bm.T @ Bm + np.eye(len(bi), dtype=np.int64)
+        ctx.label("int64-system")
+        for mode in ("cold", "warm"):
+            p0 = np.zeros(0, dtype=int) if mode == "cold" else (np.linalg.solve(ai.astype(float), bi.astype(float)) > 0)
+            s_i = ctx.impl("fnnls/int64/%s" % mode, fnnls_cholesky, ai.copy(), bi.copy(), P_initial=p0)
+            v, desc = kkt_violation(ai, bi, s_i, natural=float(np.abs(bi).max()))
+            ctx.check(v <= KKT_RTOL, "fnnls/int64/%s/kkt" % mode, lambda: "%s; int64 A=%s b=%s s=%s" % (desc, ai.tolist(), bi.tolist(), s_i))
     target(float(min(worst, 1.0)), label="kkt")
 
 
